@@ -331,6 +331,9 @@ def model_tie_applicable(case):
 NORM_LP_TOL = {"f64": 1e-6, "f32": 1e-4, "bf16": 0.1, "f16": 0.02}     # relative, on ||delta|| / lr (measured worst deviations x >= 8)
 
 
+UNIT_ROUNDOFF = {"f64": 2.0 ** -52, "f32": 2.0 ** -23, "bf16": 2.0 ** -8, "f16": 2.0 ** -10}      # storage rounding of the parameter values
+
+
 def gen_norm_lp_case(rng, pd, tiny, zero=False):
     """Norm transfer with float32 / bfloat16 / float16 parameters (float32 factors): Adagrad-family grafting with a small grafting
     epsilon, so that the grafted direction has entries of magnitude ~1 whatever the gradient scale and the parameter delta stays
@@ -619,7 +622,7 @@ def norm_lp_worker(case):
             if r["error"] or r["after"]["t"] < r["cfg"]["start"] or r["after"]["t"] == r["before"]["t"] or any(c["ans"] is None for c in r["calls"]):
                 continue
             rows.append({"step": si, "group": gi, "t": r["after"]["t"], "blocks": sum(1 for g in r["grads"] if g is not None),
-                         "term": optrun.cstep(r).replace("(step_ok ", f"(norm_lp_ok {fl(NORM_LP_TOL[case['pdtype']])} ", 1)})
+                         "term": optrun.cstep(r).replace("(step_ok ", f"(norm_lp_ok {fl(NORM_LP_TOL[case['pdtype']])} {fl(UNIT_ROUNDOFF[case['pdtype']])} ", 1)})
     return {"rows": rows}
 
 
